@@ -403,3 +403,54 @@ class History:
 
     def render(self):
         return "sql %s | %s" % (self.cfg, " | ".join(self.rust)), "[%s]" % "; ".join(self.coq)
+
+
+# ---------------------------------------------------------------------------------------------
+# syntactic classes shared by several properties
+# ---------------------------------------------------------------------------------------------
+def aborted_key_reuse(rust):
+    """True when a session that does not commit deletes from a table with a unique index and later inserts into it,
+    or drops a table and later creates one of the same name: the single index entry per key (per name in the catalog)
+    is overwritten by the re-insert and is lost when the transaction rolls back
+    (recorded finding *-key-reuse-in-aborted-transaction)."""
+    acts = rust.split(" | ")[1:]
+    indexed = set()
+    sess = {}
+    for a in acts:
+        if a.startswith("X CREATE TABLE ") or a.startswith("Q "):
+            body = a.split(" ", 2)[2] if a.startswith("Q ") else a[2:]
+            if body.startswith("CREATE TABLE ") and ("PRIMARY KEY" in body or "UNIQUE" in body):
+                indexed.add(body.split()[2])
+        if "CREATE UNIQUE INDEX" in a:
+            indexed.add(a.split(" ON ")[1].split("(")[0].strip())
+    for a in acts:
+        op = a.split(" ", 1)[0]
+        if op == "B":
+            sess[a.split()[1]] = []
+        elif op in ("Q", "Q!"):
+            _, k, sql = a.split(" ", 2)
+            sess.setdefault(k, []).append(sql)
+        elif op in ("R", "D"):
+            k = a.split()[1]
+            deleted, dropped = set(), set()
+            for sql in sess.pop(k, []):
+                w = sql.split()
+                if sql.startswith("DELETE FROM "):
+                    deleted.add(w[2])
+                elif sql.startswith("INSERT INTO ") and w[2] in deleted and w[2] in indexed:
+                    return True
+                elif sql.startswith("DROP TABLE "):
+                    dropped.add(w[2])
+                elif sql.startswith("CREATE TABLE ") and w[2] in dropped:
+                    return True
+        elif op == "C":
+            sess.pop(a.split()[1], None)
+    return False
+
+
+def tag_key_reuse(case):
+    if aborted_key_reuse(case.rust):
+        case.meta.setdefault("classes", [])
+        if "key-reuse-in-aborted-transaction" not in case.meta["classes"]:
+            case.meta["classes"] = sorted(case.meta["classes"] + ["key-reuse-in-aborted-transaction"])
+    return case
